@@ -168,6 +168,11 @@ def wl_sync(tier, seed):
     rel = [gen.gen_reloc(seed * 1000 + 280 + i, idbase=(300 + i) * IDSTEP, nops=80 if tier == "quick" else 300, name="syncreloc_%d" % i, snap=True)
            for i in range(3 if tier == "quick" else 16)]
     batches.append(("sync_reloc", rel, dict(per_tlc=1, tlc_jobs=6)))
+    # round numbers of updates between two flushes
+    sc = [gen.gen_sync_scale(seed * 1000 + 290 + i, idbase=(320 + i) * IDSTEP, segs=sg, kt=kt, name="syncscale_%d" % i)
+          for i, (sg, kt) in enumerate([((1024, 512, 2048, 1000), "u64"), ((256, 4096, 128, 64), "bytes")] if tier == "quick" else
+                                       [((1024, 512, 2048, 1000), "u64"), ((256, 4096, 128, 64), "bytes"), ((8192, 1, 16384), "string"), ((100, 1000, 10000, 65536), "vu64")])]
+    batches.append(("sync_scale", sc, dict(per_tlc=1, tlc_jobs=4, max_slots=300)))
     batches.append(("sync_strace", out2, dict(per_tlc=2, tlc_jobs=8, max_slots=300, strace=True, op_timeout=60)))
     return batches
 
